@@ -247,26 +247,36 @@ func ReturnedDirectly(v ssa.Value) bool {
 func CheckedCut(fn *ssa.Function, calls []ssa.CallInstruction, passVal bool) (cut *Cut, unchecked []ssa.CallInstruction) {
 	cut = NewCut()
 	for _, ci := range calls {
-		idx := VerdictIndex(ci.Common().Signature())
-		if idx < 0 {
+		res := ci.Common().Signature().Results()
+		var idxs []int
+		for i := 0; i < res.Len(); i++ {
+			t := res.At(i).Type()
+			if b, ok := t.Underlying().(*types.Basic); ok && b.Kind() == types.Bool {
+				idxs = append(idxs, i)
+			} else if types.IsInterface(t) && isErrorLike(t) {
+				idxs = append(idxs, i)
+			}
+		}
+		if len(idxs) == 0 {
 			// no verdict: a plain must-pass
 			cut.AddInstr(ci)
 			continue
 		}
-		vals := ResultValues(ci, idx)
 		ok := false
-		for _, v := range vals {
-			edges, tested := PassEdges(fn, v, passVal)
-			if tested {
-				ok = true
-				for _, e := range edges {
-					cut.AddEdge(e[0], e[1])
+		for _, idx := range idxs {
+			for _, v := range ResultValues(ci, idx) {
+				edges, tested := PassEdges(fn, v, passVal)
+				if tested {
+					ok = true
+					for _, e := range edges {
+						cut.AddEdge(e[0], e[1])
+					}
 				}
-			}
-			if ReturnedDirectly(v) {
-				ok = true
-				// delegated: the return of v is success only if the call passed
-				cut.AddInstr(ci)
+				if ReturnedDirectly(v) {
+					ok = true
+					// delegated: the return of v is success only if the call passed
+					cut.AddInstr(ci)
+				}
 			}
 		}
 		if !ok {
@@ -274,6 +284,19 @@ func CheckedCut(fn *ssa.Function, calls []ssa.CallInstruction, passVal bool) (cu
 		}
 	}
 	return
+}
+
+func isErrorLike(t types.Type) bool {
+	it, ok := t.Underlying().(*types.Interface)
+	if !ok {
+		return false
+	}
+	for i := 0; i < it.NumMethods(); i++ {
+		if it.Method(i).Name() == "Error" {
+			return true
+		}
+	}
+	return false
 }
 
 // Describe renders a block path as source positions of its branch instructions.
@@ -479,4 +502,141 @@ func StoresInto(a *ssa.Alloc) []*ssa.Store {
 	}
 	walk(a)
 	return out
+}
+
+// CondString renders a condition without SSA register names, so that it can
+// serve as a stable key: callee names, operators, field names, constants.
+func CondString(v ssa.Value) string { return condString(v, 0) }
+
+func condString(v ssa.Value, depth int) string {
+	if depth > 4 {
+		return "_"
+	}
+	switch x := v.(type) {
+	case *ssa.UnOp:
+		if x.Op == token.NOT {
+			return "!" + condString(x.X, depth+1)
+		}
+		if x.Op == token.MUL {
+			if fa, ok := x.X.(*ssa.FieldAddr); ok {
+				return "." + fieldName(fa)
+			}
+			return "*" + condString(x.X, depth+1)
+		}
+		return x.Op.String() + condString(x.X, depth+1)
+	case *ssa.BinOp:
+		return "(" + condString(x.X, depth+1) + x.Op.String() + condString(x.Y, depth+1) + ")"
+	case *ssa.Call:
+		name := "call"
+		if o := CalleeObj(&x.Call); o != nil {
+			name = o.Name()
+		} else if b, ok := x.Call.Value.(*ssa.Builtin); ok {
+			name = b.Name()
+			if len(x.Call.Args) > 0 {
+				return name + "(" + condString(x.Call.Args[0], depth+1) + ")"
+			}
+		}
+		return name + "()"
+	case *ssa.Extract:
+		return condString(x.Tuple, depth+1) + fmt.Sprintf("#%d", x.Index)
+	case *ssa.Const:
+		if x.Value == nil {
+			return "nil"
+		}
+		return x.Value.ExactString()
+	case *ssa.Parameter:
+		return x.Name()
+	case *ssa.FieldAddr:
+		return "&." + fieldName(x)
+	case *ssa.Field:
+		if st, ok := x.X.Type().Underlying().(*types.Struct); ok {
+			return "." + st.Field(x.Field).Name()
+		}
+	case *ssa.Phi:
+		return "phi"
+	case *ssa.Next:
+		return "next"
+	case *ssa.Lookup:
+		return condString(x.X, depth+1) + "[" + condString(x.Index, depth+1) + "]"
+	case *ssa.ChangeInterface:
+		return condString(x.X, depth+1)
+	case *ssa.Convert:
+		return condString(x.X, depth+1)
+	case *ssa.ChangeType:
+		return condString(x.X, depth+1)
+	case *ssa.TypeAssert:
+		return condString(x.X, depth+1) + ".(" + typeName(x.AssertedType) + ")"
+	case *ssa.Global:
+		return x.Name()
+	case *ssa.MakeMap:
+		return "makemap"
+	}
+	return "_"
+}
+
+func fieldName(fa *ssa.FieldAddr) string {
+	if pt, ok := fa.X.Type().Underlying().(*types.Pointer); ok {
+		if st, ok := pt.Elem().Underlying().(*types.Struct); ok {
+			return st.Field(fa.Field).Name()
+		}
+	}
+	return "?"
+}
+
+// ReachFromBlock computes reachability from the start of block b under cut.
+func ReachFromBlock(fn *ssa.Function, b *ssa.BasicBlock, cut *Cut) *Reach {
+	r := &Reach{Fn: fn, cut: cut, entered: map[int]bool{}, through: map[int]bool{}, pred: map[int]int{}}
+	r.bfs(b, 0)
+	return r
+}
+
+// EnclosingLoopHeader returns the nearest block dominating b that is a loop
+// header (its comment ends in ".loop") from which b is reachable and which is
+// reachable from b.
+func EnclosingLoopHeader(b *ssa.BasicBlock) *ssa.BasicBlock {
+	for d := b; d != nil; d = d.Idom() {
+		if strings.HasSuffix(d.Comment, ".loop") {
+			// b must be inside the loop: header reachable from b
+			if blockReaches(b, d) {
+				return d
+			}
+		}
+	}
+	return nil
+}
+
+func blockReaches(from, to *ssa.BasicBlock) bool {
+	seen := map[*ssa.BasicBlock]bool{}
+	var st []*ssa.BasicBlock
+	st = append(st, from.Succs...)
+	for len(st) > 0 {
+		x := st[len(st)-1]
+		st = st[:len(st)-1]
+		if x == to {
+			return true
+		}
+		if seen[x] {
+			continue
+		}
+		seen[x] = true
+		st = append(st, x.Succs...)
+	}
+	return false
+}
+
+// DecisionBefore describes the last branch decision that leads into block p
+// through straight-line code: returns the If and the arm value, or nil.
+func DecisionBefore(p *ssa.BasicBlock) (*ssa.If, bool) {
+	cur := p
+	for steps := 0; steps < 50; steps++ {
+		if len(cur.Preds) != 1 {
+			return nil, false
+		}
+		pr := cur.Preds[0]
+		if i, ok := pr.Instrs[len(pr.Instrs)-1].(*ssa.If); ok {
+			return i, pr.Succs[0] == cur
+		}
+		cur = pr
+	}
+	return nil, false
 }
